@@ -9,8 +9,8 @@ prop(
     needs_bin=True,
     stages=[
         dict(run="^TestPropHistory$",
-             quick=dict(checks=800, shards=16, timeout=900, shrinktime="15s"),
-             thorough=dict(checks=24000, shards=16, timeout=5400, shrinktime="60s")),
+             quick=dict(checks=1600, shards=16, timeout=1800, shrinktime="15s"),
+             thorough=dict(checks=32000, shards=16, timeout=10800, shrinktime="60s")),
     ],
     rule="a history = 1-2 commits on main (1-4 rule files x 1-5 rules over a small vocabulary, names repeat on purpose), a branch of 1-6 "
          "commits (each: a pure file rename in its own commit, a rename combined with one edit, or 1-3 of: add/delete/re-add file, "
@@ -29,8 +29,9 @@ prop(
                "the same commit) and the harness' YAML renderer (every rule's first line is cross-checked against pint's parse; a "
                "mismatch is reported as inconclusive, not as a violation). Where the statement does not determine one answer the "
                "reference accepts a set: several rules of one kind+name on a side (added/modified), a changed rule in a renamed file "
-               "(renamed/modified), rename combined with an edit (git's similarity heuristic: renamed or new file), a rename onto a "
-               "path deleted earlier on the branch, a path re-created after being renamed away. The changed / not-changed split is "
+               "(renamed/modified), rename combined with an edit (git's similarity heuristic: renamed or new file), a path "
+               "re-created after being renamed away (new file, or compared with the fork-point version of that path). A rename "
+               "onto a path deleted earlier on the branch is followed strictly (origin = rename source). The changed / not-changed split is "
                "always enforced with multiplicities. Group-level attributes (labels, interval) are never edited: the statement lists "
                "rule content only.",
     assumptions=["git 2.39 reports a byte-identical delete+create in one commit as R100",
